@@ -87,7 +87,8 @@ def _case(draw):
             a = flat.reshape(shape).tolist()
         bs = draw(st.integers(1, n + 2))
         return dict(fn=fn, a=a, batch_size=bs, seed=seed,
-                    return_utilities=draw(st.booleans()))
+                    return_utilities=draw(st.booleans()),
+                    layout=draw(st.sampled_from(["C", "C", "F", "strided"])))
     a, shape = draw(_array(False, max_dims=1, nonneg=True))
     arr = np.array(a, dtype=float)
     npos = int(np.sum(arr > 0))
@@ -226,7 +227,20 @@ def _check_simple_batch(case):
     labels = [f"component={comp}", f"ndim={a.ndim}"]
     viol = []
     has_inf = bool(np.isinf(a).any())
-    ok, r = guarded(simple_batch, a.copy(), random_state=case["seed"],
+    def _layout(arr):
+        """The same values in another memory layout (callers pass columns,
+        transposes and strided slices of larger arrays)."""
+        lay = case.get("layout", "C")
+        if lay == "F" and arr.ndim >= 2:
+            return np.asfortranarray(arr.copy())
+        if lay == "strided" or (lay == "F" and arr.ndim == 1):
+            big = np.full((2 * arr.shape[0],) + arr.shape[1:], 7.5)
+            big[::2] = arr
+            return big[::2]
+        return arr.copy()
+
+    labels.append(f"layout={case.get('layout', 'C')}")
+    ok, r = guarded(simple_batch, _layout(a), random_state=case["seed"],
                     batch_size=bs, return_utilities=True, method=method)
     if has_inf:
         labels.append("infinite_input")
@@ -297,7 +311,7 @@ def _check_simple_batch(case):
         viol.append(Violation(comp, "increasing_utility_order", "max",
                               f"{picked_vals}"))
     # reproducibility and agreement of the return_utilities=False form
-    ok2, r2 = guarded(simple_batch, a.copy(), random_state=case["seed"],
+    ok2, r2 = guarded(simple_batch, _layout(a), random_state=case["seed"],
                       batch_size=bs, return_utilities=False, method=method)
     if not ok2 or not np.array_equal(np.asarray(r2), idx):
         viol.append(Violation(comp, "not_reproducible", "same_seed",
